@@ -20,12 +20,12 @@ Local Open Scope list_scope.
 (* 3. the per-call step, all five calls                                                                *)
 
 Theorem sim_step : forall orc chunk s s' st valid encs prev c,
-  Sim s st valid encs prev -> call_good' c -> meta_guess_b s c = true -> oracle_ok_call orc c ->
+  Sim s st valid encs prev -> call_good c -> meta_guess_b s c = true -> oracle_ok_call orc c ->
   do_call c s = (s', Ok tt) -> 0 < chunk ->
   (Z.of_nat (length (w_out s')) <= sys_maxsize)%Z ->
   step_ok orc chunk s st valid encs prev c s'.
 Proof.
-  intros orc chunk s s' st valid encs prev c HS [Hg Hmd] Hguess Horc Hcall Hchunk Hsize.
+  intros orc chunk s s' st valid encs prev c HS Hg Hguess Horc Hcall Hchunk Hsize.
   destruct c as [e|e|text enc ind le mt|md enc fmt|content dt enc le]; cbn [call_good] in Hg.
   - destruct (sim_step_container orc chunk (NewChange e) e s s' st valid encs prev (or_introl eq_refl) HS Hg Hcall Hchunk)
       as (new & Hout & Hstep).
@@ -40,7 +40,7 @@ Proof.
     exists st', v', e', p'. split; [exact H1|]. split; [exact H2|]. split; [exact H3|].
     rewrite H4. cbn [call_nlines]. lia.
   - destruct Hg as (He & Hi & Hl). eapply sim_step_preamble; eauto.
-  - destruct Hmd as [kv ->]. eapply sim_step_meta; eauto.
+  - destruct Hg as (He & kv & ->). eapply sim_step_meta; eauto.
   - destruct Hg as (He & Hl). eapply sim_step_diff; eauto.
 Qed.
 
@@ -76,7 +76,7 @@ Proof.
 Qed.
 
 Lemma sim_run : forall orc chunk cs s st valid encs prev,
-  Sim s st valid encs prev -> Forall call_good' cs -> accepted s cs -> guesses_ok s cs -> oracle_ok orc cs ->
+  Sim s st valid encs prev -> Forall call_good cs -> accepted s cs -> guesses_ok s cs -> oracle_ok orc cs ->
   0 < chunk -> (Z.of_nat (length (w_out (snd (run_calls s cs)))) <= sys_maxsize)%Z ->
   forall suf rest, w_out (snd (run_calls s cs)) = w_out s ++ suf -> remaining (st_stream st) = suf ++ rest ->
   exists st' v' e' p',
@@ -115,7 +115,7 @@ Qed.
 
 Theorem C01_round_trip : forall enc0 ver s0 cs orc chunk,
   writer_init enc0 ver = (s0, Ok tt) -> enc_ok enc0 ->
-  Forall call_good' cs -> accepted s0 cs -> guesses_ok s0 cs -> oracle_ok orc cs ->
+  Forall call_good cs -> accepted s0 cs -> guesses_ok s0 cs -> oracle_ok orc cs ->
   0 < chunk -> (Z.of_nat (length (w_out (snd (run_calls s0 cs)))) <= sys_maxsize)%Z ->
   read_all orc chunk (w_out (snd (run_calls s0 cs))) = (main_record enc0 ver :: expected_records s0 1 cs, TEnd).
 Proof.
